@@ -227,7 +227,7 @@ def colOf (desc : List (String × String)) (k : String) : Except String (Option 
   | some v => match str2num v with
     | .str s => match columnRef s with
       | some i => .ok (some i)
-      | none => .error "IndexError"
+      | none => .error (if (s.splitOn "column").length < 2 then "IndexError" else "ValueError")
     | _ => .error "AttributeError"      -- a number has no .split
 
 /-- everything `update_from_grid` needs to know, or the exception class the code raises -/
@@ -258,13 +258,19 @@ def layout (desc : List (String × String)) : Except String Layout := do
   let ycol ← match ← colOf desc "y1value" with
     | some i => pure i
     | none => throw "AttributeError"
+  -- `if 'y1error' in self:` total error given, nothing else is looked at; otherwise the parts, and the
+  -- asymmetric "minus" columns are only read when the corresponding "plus" key is present
   let etotal ← colOf desc "y1error"
-  let estat ← colOf desc "y1errorstatistic"
-  let estatP ← colOf desc "y1errorstatisticplus"
-  let estatM ← colOf desc "y1errorstatisticminus"
-  let esyst ← colOf desc "y1errorsystematic"
-  let esystP ← colOf desc "y1errorsystematicplus"
-  let esystM ← colOf desc "y1errorsystematicminus"
+  let need (k : String) : Except String (Option Int) := do
+    match ← colOf desc k with
+    | some i => pure (some i)
+    | none => throw "AttributeError"
+  let estat ← if etotal.isSome then pure none else colOf desc "y1errorstatistic"
+  let estatP ← if etotal.isSome then pure none else colOf desc "y1errorstatisticplus"
+  let estatM ← if etotal.isSome || estatP.isNone then pure none else need "y1errorstatisticminus"
+  let esyst ← if etotal.isSome then pure none else colOf desc "y1errorsystematic"
+  let esystP ← if etotal.isSome then pure none else colOf desc "y1errorsystematicplus"
+  let esystM ← if etotal.isSome || esystP.isNone then pure none else need "y1errorsystematicminus"
   let enorm := match (lookup desc "y1errornormalization").map str2num with
     | some (.flt d) => some d
     | some (.int d) => some d
